@@ -23,7 +23,7 @@ type decCase struct {
 	Dict      []byte `json:"dict,omitempty"`
 	Spare     int    `json:"spare"`               // spare capacity behind dst (canaried)
 	Fill      int    `json:"fill"`                // prior contents of dst: 0 = 0x00, 1 = 0xFF, >= 2 = pseudo-random (seed)
-	Place     string `json:"place"`               // end: src/dst/dict each end at an unmapped page; start: dst starts right after one
+	Place     string `json:"place"`               // end: src/dst/dict each end at an unmapped page; start: dst starts right after one; nil: as end, but a destination of length 0 is the nil slice
 	Origin    string `json:"origin"`              // how the case was generated (classification only)
 	SrcSpare  int    `json:"srcspare,omitempty"`  // spare capacity behind src (filled with SparePat)
 	DictSpare int    `json:"dictspare,omitempty"` // spare capacity behind dict
@@ -125,6 +125,9 @@ func execDecode(c decCase) (res decResult) {
 	inst.FillCanary(after)
 	if len(c.Dict) == 0 {
 		dict = nil
+	}
+	if c.Place == "nil" && c.DstLen == 0 {
+		dst = nil
 	}
 	old := debug.SetPanicOnFault(true)
 	defer debug.SetPanicOnFault(old)
